@@ -20,6 +20,15 @@ def _mods():
 def draw(rng, i):
     tth = math.radians(rng.uniform(0.5, 150))
     v = np.array([rng.gauss(0, 1) for _ in range(3)])
+    # exact special directions (uniform draws have measure zero on them): g in a coordinate plane (one component exactly 0: h0l / hk0
+    # reflections of an axis-aligned grain) in 1/4 of the cases, along a coordinate axis in 1/12; found by a seeded change whose
+    # half-angle root q = b + sign(b) sqrt(d) is wrong exactly when g_y = 0
+    k2 = (i // 6) % 12
+    if k2 in (1, 4, 7):
+        v[(1, 0, 2)[k2 // 3 % 3]] = 0.0
+    elif k2 == 10:
+        j = rng.randrange(3)
+        v = np.array([1.0 if t == j else 0.0 for t in range(3)]) * rng.choice([-1.0, 1.0])
     v /= np.linalg.norm(v)
     k = i % 6
     if k == 0:
